@@ -196,6 +196,14 @@ class Crate:
         return out
 
 
+def const_s(s):
+    """Canonical spelling of a const generic argument (parameter indices and anon-const DefIds dropped)."""
+    s = re.sub(r"/#\d+", "", s)
+    if "UnevaluatedConst" in s:
+        return "{const expr}"
+    return s
+
+
 def ty_s(t):
     """Compact, canonical string of a type JSON tree (regions erased)."""
     if t is None:
@@ -217,7 +225,7 @@ def ty_s(t):
     if k == "slice":
         return "[" + ty_s(t["inner"]) + "]"
     if k == "array":
-        return "[" + ty_s(t["inner"]) + "; " + t["len"] + "]"
+        return "[" + ty_s(t["inner"]) + "; " + const_s(t["len"]) + "]"
     if k == "alias":
         args = [ty_s(a) for a in t["args"] if a.get("t") != "region"]
         if t["kind"] == "projection":
@@ -237,7 +245,7 @@ def ty_s(t):
     if k == "region":
         return "'_"
     if k == "const":
-        return re.sub(r"/#\d+", "", t["s"])
+        return const_s(t["s"])
     if k in ("fndef", "closure", "coroutine", "coroutine_closure"):
         return "%s(%s)" % (k, t["def"])
     return t.get("s", "?")
@@ -284,5 +292,5 @@ def clause_s(c):
                                           "<" + ", ".join(rest) + ">" if rest else "", c["assoc"],
                                           ty_s(c["term"]) if isinstance(c["term"], dict) else c["term"])
     if k == "const_arg_has_type":
-        return "const %s: %s" % (c["c"], ty_s(c["ty"]))
+        return "const %s: %s" % (const_s(c["c"]), ty_s(c["ty"]))
     return "other: " + c.get("s", "")
